@@ -172,6 +172,20 @@ def analyse_one(args):
                         probs.append((f, "short-input-length", f"sequential series '{f}' has {len(v.data)} entries for {ns} candles (input shorter than the default period)"))
                 elif not isinstance(v, (NA, list)):
                     probs.append((f, "short-input-not-a-series", f"sequential result of field '{f}' on {ns} candle(s) is not a series ({type(v).__name__})"))
+            if rn[0] == "ok":
+                # at a length around the look-back the two branches must agree on WHETHER there is a value yet: the constant NaN on one
+                # side and a computed number on the other is a disagreement for every (finite) input
+                fs_, fn__ = IR.fields_of(rs[1]), IR.fields_of(rn[1])
+                if len(fs_) == len(fn__):
+                    for (f, a), (g, b) in zip(fs_, fn__):
+                        if not (isinstance(a, NA) and a.ndim == 1 and len(a.data) == ns) or isinstance(b, (NA, list)):
+                            continue
+                        la = last(a)
+                        is_nan = lambda x: isinstance(x, float) and x != x
+                        if is_nan(b) and isinstance(la, D):
+                            probs.append((f, "short-input-single-nan-series-has-value", f"field '{f}' on {ns} candles: sequential=False returns NaN although the last entry of the sequential series is a computed value (the two branches disagree on the length at which the first value exists)"))
+                        elif is_nan(la) and isinstance(b, D):
+                            probs.append((f, "short-input-series-nan-single-has-value", f"field '{f}' on {ns} candles: the last entry of the sequential series is NaN although sequential=False returns a computed value (the two branches disagree on the length at which the first value exists)"))
             if rn[0] == "raises":
                 if "IndexError" in str(rn[1]) and "numba kernel" in str(rn[1]):
                     # an out-of-bounds access inside a numba kernel is undefined behaviour in the compiled code (no bounds check): not decidable here
